@@ -37,7 +37,7 @@ const (
 )
 
 type execSpec struct {
-	Wrapper string `json:"wrapper"` // bare retry timeout-fires hedge fallback bh-outside-retry
+	Wrapper string `json:"wrapper"` // bare retry timeout-fires hedge fallback bh-outside-retry inner-full (a second, always full bulkhead inside: the admitted execution ends in the inner bulkhead's ErrFull) fn-errfull (the function itself returns an error that wraps ErrFull)
 	Async   bool   `json:"async"`
 	Role    string `json:"role"`     // holder: parks in the function on a gate | burst: returns at once | waiter: submitted while the bulkhead is full
 	FailN   int    `json:"fail_n"`   // the first n invocations of this execution return errX
@@ -95,6 +95,8 @@ func run(sc scenario) (out runOut) {
 	var meter atomic.Int32
 	var overLimit atomic.Int32
 	var maxSeen atomic.Int32
+	innerFull := bulkhead.Builder[int](1).Build()
+	innerFull.TryAcquirePermit() // never released: whatever is routed through it is refused at once
 	for i := 0; i < sc.Standalone; i++ {
 		if !bh.TryAcquirePermit() {
 			return fail("standalone-refused", "TryAcquirePermit %d of %d refused on an idle bulkhead of %d", i+1, sc.Standalone, sc.Max)
@@ -139,6 +141,9 @@ func run(sc scenario) (out runOut) {
 				case <-exec.Canceled():
 				}
 			}
+			if st.spec.Wrapper == "fn-errfull" {
+				return 0, fmt.Errorf("downstream: %w", bulkhead.ErrFull) // an outcome like any other for the bulkhead under test
+			}
 			if n <= st.spec.FailN {
 				return 0, errX
 			}
@@ -162,6 +167,8 @@ func run(sc scenario) (out runOut) {
 			pols = []failsafe.Policy[int]{fallback.WithResult[int](fbVal), bh}
 		case "bh-outside-retry":
 			pols = []failsafe.Policy[int]{bh, rp}
+		case "inner-full":
+			pols = []failsafe.Policy[int]{bh, innerFull}
 		default:
 			pols = []failsafe.Policy[int]{bh}
 		}
@@ -284,6 +291,9 @@ func run(sc scenario) (out runOut) {
 		}
 		if errors.Is(e, bulkhead.ErrFull) {
 			out.refused = true
+			if st.spec.Wrapper == "inner-full" || st.spec.Wrapper == "fn-errfull" {
+				continue // ErrFull is the inside's outcome here, not a refusal by the bulkhead under test
+			}
 			if (st.spec.Wrapper == "bare") && st.entries.Load() != 0 {
 				return fail("refused-but-entered", "execution %d returned ErrFull although it entered the function", i)
 			}
@@ -338,13 +348,13 @@ func genScenario(t *rapid.T) scenario {
 	g := rapid.IntRange(2, maxG).Draw(t, "execs")
 	for i := 0; i < g; i++ {
 		sp := execSpec{
-			Wrapper: rapid.SampledFrom([]string{"bare", "bare", "retry", "timeout-fires", "hedge", "fallback", "bh-outside-retry"}).Draw(t, "wrapper"),
+			Wrapper: rapid.SampledFrom([]string{"bare", "bare", "retry", "timeout-fires", "hedge", "fallback", "bh-outside-retry", "inner-full", "fn-errfull"}).Draw(t, "wrapper"),
 			Async:   rapid.Bool().Draw(t, "async"),
 			Role:    rapid.SampledFrom([]string{"holder", "burst", "waiter", "waiter"}).Draw(t, "role"),
 			FailN:   rapid.SampledFrom([]int{0, 0, 1, 5}).Draw(t, "failN"),
 		}
 		sp.CancelMe = rapid.IntRange(0, 3).Draw(t, "cancelMe") == 0
-		if sp.Wrapper == "timeout-fires" || sp.Wrapper == "hedge" {
+		if sp.Wrapper == "timeout-fires" || sp.Wrapper == "hedge" || sp.Wrapper == "inner-full" {
 			if sp.Role == "holder" {
 				sp.Role = "burst" // these wrappers end by themselves
 			}
